@@ -512,12 +512,17 @@ def c06_family(tier):
     delays = [0, 300, C06_CT + 200]
     when   = 'any' if full else 'next'
 
-    def mk(name, fs, victims, delays, ct=C06_CT, required_note=None):
+    def mk(name, fs, victims, delays, ct=C06_CT, required_note=None, kinds=('kill',)):
         s = timely(scn(name, fs), quiet=10**9, horizon=1200)
         s['conn_timeout'] = ct
-        s['faults'] = {'kinds': ['kill'], 'victims': victims, 'restart_delays': delays, 'budget': 1, 'when': when,
+        s['faults'] = {'kinds': list(kinds), 'victims': victims, 'restart_delays': delays, 'budget': 1, 'when': when,
                        'after_ms': ct + 5 * 100 + 700}
         s['c06_bound'] = ct + 5 * 100
+
+        if 'graceful' in kinds:      # a clean stop must not take the neighbours down with it (PROP_EXIT=none, as under an orchestrator that restarts single filters)
+            for f in s['filters']:
+                f['run'] = {'prop_exit': 'none', 'obey_exit': 'none'}
+
         out.append(s)
 
     period = 40
@@ -533,6 +538,12 @@ def c06_family(tier):
 
     for v in ['src', 'b1', 'snk'] if full else ['b1', 'snk']:
         mk(f'rejoin2/{v}', rj(), [v], delays)
+
+    # graceful stop (stop event: shutdown runs, CLOSE is sent, sockets are closed) and restart under the same id
+    for v in ['src', 'mid', 'snk']:
+        mk(f'chain3-graceful/{v}', ch(False), [v], [300, C06_CT + 200], kinds=('graceful',))
+
+    mk('rejoin2-graceful/b1', rj(), ['b1'], [300], kinds=('graceful',))
 
     # a consumer that is not a required output dies and never returns: the others keep going after the connection timeout
     mk('tee-dies/b', tee(), ['b'], [None])
